@@ -257,6 +257,13 @@ def run(tier):
                 else:
                     seen_diff = True
                     zero_new = any(v and "num_elements" in repr(c) for c, v in p.pc.items())
+                    # the array must end with the archived extents: its layout is written again after the clear (from the re-extended storage), or the
+                    # archived extents are compared equal to the cleared array's own (reextent's no-op); an archive without elements still has extents
+                    lay_writes = [e_ for e_ in p.events if e_[0] in ("write", "writeblk") and e_[1] == ("param", 0)]
+                    ext_cmps = [v for c, v in p.pc.items() if re.search(r"operator[!=]=\(extensions_t", repr(c))]
+                    if len(lay_writes) < 2 and not (len(ext_cmps) > 1 and ext_cmps[-1]):
+                        bad_resize.append("the archived extents differ from the array's, but after the clear the array's layout is not replaced by the archived extents "
+                                          "(an archive of an array without elements still carries its extents)")
                     emptied = sum(1 for c, v in p.pc.items() if re.search(r"operator[!=]=\(extensions_t", repr(c))) > 1 or zero_new
                     if "construct" not in storage and not emptied:
                         bad_resize.append("the archived extents differ but no new storage is initialised before the elements (%s)" % [k for k, e in rest][:5])
